@@ -40,6 +40,7 @@ def run(ck):
     c04.r1_fields_restored(ck, rule="C05-R3a")
     c04.r2_single_caller(ck, rule="C05-R3b")
     c04.r3b_pop_after_rollback(ck, rule="C05-R3c")
+    c04.r4_direction(ck, rule="C05-R3d")
     r4(ck, par)
     r5(ck, main, cmd_push, seq, par)
 
@@ -94,13 +95,26 @@ def r1(ck, cmd_push, seq, par):
             continue
         ok_edges += re["ok"]
         ck.ok("C05-R1", "result of %s inspected" % d, "`?`/match found, Ok edge %s" % (re["ok"],), s.where())
-    for ws in wsites:
-        r = cfg.reachable(cmd_push, 0, disabled=set(ok_edges))
-        ck.require(ws.bb not in r, "C05-R1", "log write only after a driver returned Ok",
-                   "save of .pc/applied-patches is reachable without passing the Ok edge of a driver call", ws.where(),
+    # every call of cmd_push that can write the file system - other than launching a driver - happens after a driver returned Ok
+    fs_writers = cg.functions_with_effect(callgraph.fs_write_kind)
+    launch_bbs = {s.bb for s, d in dsites}
+    other_w = [s for s in cg.out[cmd_push.id] if s.term is not None and s.callee in fs_writers and s.bb not in launch_bbs and
+               s.callee not in (seq.id, par.id) and not prog.fns[s.callee].id.startswith(cmd_push.id + "::{closure")]
+    r_no_ok = cfg.reachable(cmd_push, 0, disabled=set(ok_edges))
+    for ws in sorted(set(other_w) | set(wsites), key=lambda x: x.bb):
+        ck.require(ws.bb not in r_no_ok, "C05-R1", "%s only after a driver returned Ok" % ws.callee.split("::")[-1],
+                   "a call that can write the file system (%s) is reachable in cmd_push without passing the Ok edge of a driver call: "
+                   ".pc or the log can be touched by a push that is then refused or fails" % ws.callee.split("::")[-1], ws.where(),
                    ok_detail="unreachable once the %d driver Ok edges are removed" % len(ok_edges))
-        # the slice argument
-        e = df.operand_expr(cmd_push, ws.term["args"][1])
+    nslice = 0
+    for ws in sorted(set(other_w) | set(wsites), key=lambda x: x.bb):
+        # the slice argument (whichever argument carries the names)
+        cands = [df.operand_expr(cmd_push, a) for a in ws.term["args"]]
+        cands = [e for e in cands if df.mentions(e, lambda x: isinstance(x, tuple) and x[0] == "field" and x[2] == "series_patches")]
+        if not cands:
+            continue
+        nslice += 1
+        e = cands[0]
         good = False
         detail = df.show(e, 200)
         idx = [x for x in df.walk(e) if df.is_call(x, "Index<I> for [T]>::index", "::index")]
@@ -124,6 +138,7 @@ def r1(ck, cmd_push, seq, par):
             good = base_ok and rng_ok and res_ok
         ck.require(good, "C05-R1", "recorded names = series_patches[0..applied_patches] of the driver result",
                    "slice passed to the log writer is %s" % detail, ws.where(), ok_detail=detail)
+    ck.floor("C05-R1", "writer calls that are given the series slice", nslice, 1)
     # the closure handed to the pool returns the driver's result unchanged
     for s, d in dsites:
         if s.kind == "value":
